@@ -419,8 +419,7 @@ class Wsdl11(XmlSchema):
                     soap_header = SubElement(input, input_binding_ns('header'))
                     soap_header.set('use', 'literal')
                     soap_header.set('message', '%s:%s' % (
-                                header.get_namespace_prefix(self.interface),
-                                in_header_message_name))
+                                pref_tns, in_header_message_name))
                     soap_header.set('part', header.get_type_name())
 
             if not (method.is_async or method.is_callback):
@@ -451,8 +450,7 @@ class Wsdl11(XmlSchema):
                         soap_header = SubElement(output, output_binding_ns("header"))
                         soap_header.set('use', 'literal')
                         soap_header.set('message', '%s:%s' % (
-                                header.get_namespace_prefix(self.interface),
-                                out_header_message_name))
+                                pref_tns, out_header_message_name))
                         soap_header.set('part', header.get_type_name())
 
                 if not (method.faults is None):
